@@ -110,11 +110,25 @@ fn build(case: &Case, salt: u64, t: &mut Tape) -> (Generated, String) {
         }
     };
     let rt = Ty::either(b_ty.clone(), acc_ty.clone());
-    let f = func("body", vec![("acc", acc_ty.clone()), ("ctx", ctx_ty.clone()), ("i", cw)], rt.clone(), body);
-    let mut stmts = vec![let_("r", rt.clone(), Expr::Call(CallName::ForWhile("body".into()), vec![init, ctx_expr]))];
+    // the loop function's name: plain, or a builtin word with a suffix; its signature: written out,
+    // or through user-defined aliases
+    let fname = ["body", "for_while_body", "fold_step", "match_exit", "into_acc", "unwrap_or_next", "step1", "assert_next"][(salt % 8) as usize];
+    let use_alias = salt % 3 == 0;
+    let mut items = vec![];
+    let (acc_pty, cw_pty) = if use_alias {
+        items.push(Item::Alias("Acc".into(), acc_ty.clone()));
+        items.push(Item::Alias("Counter".into(), cw.clone()));
+        (Ty::Alias("Acc".into(), Box::new(acc_ty.clone())), Ty::Alias("Counter".into(), Box::new(cw.clone())))
+    } else {
+        (acc_ty.clone(), cw.clone())
+    };
+    let f = func(fname, vec![("acc", acc_pty), ("ctx", ctx_ty.clone()), ("i", cw_pty)], rt.clone(), body);
+    items.push(f);
+    let mut stmts = vec![let_("r", rt.clone(), Expr::Call(CallName::ForWhile(fname.into()), vec![init, ctx_expr]))];
     let mut g = Gen::new(t, GenCfg { max_holes: 64, ..GenCfg::general() });
     g.observe(&var("r"), &rt, &mut stmts, 0);
-    let prog = Program { items: vec![f, main_fn(stmts)] };
+    items.push(main_fn(stmts));
+    let prog = Program { items };
     let n_holes = count_holes(&prog);
     let mut pv = vec![false; n_holes];
     let perturbed = salt % 6 == 0 && n_holes > 0;
@@ -200,7 +214,7 @@ pub fn streams() -> Vec<Stream> {
 pub fn def() -> PropertyDef {
     PropertyDef {
         id: "C09",
-        rule: "enumerated: counter width n in {1,2,4,8} x every exit iteration t in 0..2^n-1 and `never` (complete), plus width 16 at t in {0,1,2,255,256,257,32767,32768,65534,65535,never} (thorough: + 64 pseudo-random exits; sampled, not exhaustive) x loop bodies {order-recording acc' = acc*33+i+1, context-checking assert!(ctx == C) every iteration, poisoned assert!(i <= t) so any iteration after the exit panics, early-left-value Left(!acc'), unit accumulator returning Left(i), pair accumulator (count, last) returning the context on exit}; sub-byte counters are widened through casts; in a quarter of the cases the exit iteration is `param::EXIT` read inside the loop body; every other program is rendered in a varied layout. Oracle: the reference interpreter's loop (i = 0,1,2,... ; first Left stops; Right(acc) after 2^n iterations); the program asserts the whole Either result (one constant deliberately wrong in 1/6 of the cases) and its verdict must equal the interpreter's. evaluations = program executions. Non-trivial = exit iteration >= 1 or never (>= 2 iterations run); distinct by program text. exhaustive refers to the widths 1,2,4,8 grid; width 16 is sampled.",
+        rule: "enumerated: counter width n in {1,2,4,8} x every exit iteration t in 0..2^n-1 and `never` (complete), plus width 16 at t in {0,1,2,255,256,257,32767,32768,65534,65535,never} (thorough: + 64 pseudo-random exits; sampled, not exhaustive) x loop bodies {order-recording acc' = acc*33+i+1, context-checking assert!(ctx == C) every iteration, poisoned assert!(i <= t) so any iteration after the exit panics, early-left-value Left(!acc'), unit accumulator returning Left(i), pair accumulator (count, last) returning the context on exit}; sub-byte counters are widened through casts; in a quarter of the cases the exit iteration is `param::EXIT` read inside the loop body; every other program is rendered in a varied layout; the loop function's name is plain or a builtin word with a suffix (for_while_body, fold_step, ...), and a third of the signatures go through user-defined aliases. Oracle: the reference interpreter's loop (i = 0,1,2,... ; first Left stops; Right(acc) after 2^n iterations); the program asserts the whole Either result (one constant deliberately wrong in 1/6 of the cases) and its verdict must equal the interpreter's. evaluations = program executions. Non-trivial = exit iteration >= 1 or never (>= 2 iterations run); distinct by program text. exhaustive refers to the widths 1,2,4,8 grid; width 16 is sampled.",
         assumptions: &[],
         streams,
         health: &[],
